@@ -377,6 +377,44 @@ def sec_compute_local(rep):
     rep.sample({"compute_local": "orders[(o,0,0,0)][0][pid,j] == sum_k partons_k[pid] * cp_k * convolve_vector(coeff_k[o](), interpolator, cp_k)[0][j], kernels with has_order(o) false or coeff[o]() None skipped; errors with |partons_k[pid]|"})
 
 
+def sec_drop_empty(rep):
+    """Combiner.drop_empty (between the generators and compute_local): removes exactly the partons
+    whose weight is zero and the kernels left without partons / with an EmptyPartonicChannel --
+    for symbolic weights of either sign (z3 on every path), so the formal sum of the kernels and
+    hence every operator entry is unchanged."""
+    import yadism.coefficient_functions as cf
+    from yadism.coefficient_functions.kernels import Kernel
+    from pvc.core import ob_smt
+    from pvc.explore import explore
+    from pvc.sym import compare, ZERO, Not as _Not
+
+    rep.under_contract(cf.Combiner.drop_empty)
+    sy = H.Sy(extra="w1 w2 w3")
+    ws = {1: sy.w1, -2: sy.w2, 21: sy.w3}
+
+    def build():
+        ks = [Kernel(dict(ws), "coeff-a"), Kernel({3: sy.w1}, "coeff-b")]
+        out = cf.Combiner.drop_empty(ks)
+        return [(k.coeff, dict(k.partons)) for k in out]
+
+    paths = explore(build, [], max_paths=64)
+    rep.paths += len(paths)
+    rep.cases += 1
+    for i, p in enumerate(paths):
+        if p.exc is not None:
+            rep.add(ob_eval(f"C01/drop_empty/path{i}/no-exception", False, detail=repr(p.exc)))
+            continue
+        kept = {c: d for c, d in p.result}
+        for coeff, orig in (("coeff-a", ws), ("coeff-b", {3: sy.w1})):
+            for pid, w in orig.items():
+                if coeff in kept and pid in kept[coeff]:
+                    rep.add(ob_smt(f"C01/drop_empty/path{i}/{coeff}[{pid}] kept only if its weight is non-zero", p.pc, _Not(compare("==", w, ZERO))))
+                    rep.add(ob_eval(f"C01/drop_empty/path{i}/{coeff}[{pid}] kept unchanged", kept[coeff][pid] is w))
+                else:
+                    rep.add(ob_smt(f"C01/drop_empty/path{i}/{coeff}[{pid}] dropped only if its weight is zero", p.pc, compare("==", w, ZERO)))
+    rep.add(ob_eval("C01/drop_empty/cover(paths with kept and with dropped weights)", len(paths) >= 4, kind="cover", detail=f"{len(paths)} paths"))
+
+
 def sec_convolution_point(rep):
     from yadism.coefficient_functions.partonic_channel import PartonicChannel, EmptyPartonicChannel
 
@@ -436,7 +474,7 @@ def run(rep, tier, seed, only=None):
         "the factor x of the left-hand side is the convolution point of the scheme (C09 / sec_convolution_point)",
     )
     rep.stub("scipy.integrate.quad -> recording stub", "eko.interpolation.(log_)evaluate_x and BasisFunction -> uninterpreted p_j(u)", "Combiner / coefficient objects -> abstract kernels (compute_local)", "conv.convolution / convolve_vector replaced by their contracts in their callers")
-    for nm, f in (("quad_kers", sec_quad_kers), ("convolution", sec_convolution), ("vector", sec_convolve_vector), ("compute_local", sec_compute_local), ("point", sec_convolution_point)):
+    for nm, f in (("quad_kers", sec_quad_kers), ("convolution", sec_convolution), ("vector", sec_convolve_vector), ("compute_local", sec_compute_local), ("drop_empty", sec_drop_empty), ("point", sec_convolution_point)):
         if only and only not in nm:
             continue
         rep.add(guarded(f"C01/{nm}", lambda f=f: (f(rep), [])[1]))
